@@ -364,6 +364,10 @@ MUTATIONS += [
     dict(id="C04-kdf-password-truncated", prop="C04", file=KFILE, old="        scrypt::scrypt(passwd.as_ref(), &self.salt, &params, &mut key).map_err(|err| {\n            RusticError::with_source(\n                ErrorKind::Key,\n                \"Output length invalid. Please check the key file and password.\",\n                err,\n            )\n        })?;\n\n        Ok(Key::from_slice(&key))", new="        scrypt::scrypt(&self.salt, passwd.as_ref(), &params, &mut key).map_err(|err| {\n            RusticError::with_source(\n                ErrorKind::Key,\n                \"Output length invalid. Please check the key file and password.\",\n                err,\n            )\n        })?;\n\n        Ok(Key::from_slice(&key))"),
 ]
 
+MUTATIONS += [
+    dict(id="C07-backuptree-uploads-known-changed-tree", prop="C07", file=TA, old="        if !self.index.has_tree(&id) {", new="        if !matches!(parent, ParentResult::NotFound) || !self.index.has_tree(&id) {"),
+]
+
 HARMLESS = [
     dict(id="H-C05-trees-symlink-continue", prop="C05", file=CK, old="        for node in tree.nodes {\n            match node.node_type {", new="        for node in tree.nodes {\n            if node.node_type == NodeType::Symlink {\n                continue;\n            }\n            match node.node_type {"),
     # independent statements reordered
